@@ -20,6 +20,7 @@ def build(chk):
     for (mru, length) in ([(1000, 30000), (500, 9000), (10239, 40000)] if chk.quick()
                           else [(m, n) for m in (1, 100, 1000, 5000, 10239, 10240, 20000) for n in (3000, 30000, 90000)]):
         recs.append(check_C14.modulated(chk, chk.rng, mru, length, chk.rng.choice([1, 2]))[0])
+        recs.append(check_C14.modulated(chk, chk.rng, mru, length, 1, slow=True)[0])
     return recs
 
 
